@@ -387,4 +387,166 @@ theorem haf_nothing (h : Str) : hafToStr h [] [] = h := by
   unfold hafToStr
   simp
 
+/-- a pattern whose characters all differ from `c` cannot straddle into a continuation that starts with `c` -/
+theorem isPrefixOf_append_of_notin (pat d z : Str) (c : Char) (hc : c ∉ pat) :
+    pat.isPrefixOf (d ++ c :: z) = pat.isPrefixOf d := by
+  induction pat generalizing d with
+  | nil => simp
+  | cons p ps ih =>
+    have hpc : (p == c) = false := by
+      cases hb : (p == c) with
+      | false => rfl
+      | true => exact absurd (by simp [beq_iff_eq.mp hb]) hc
+    cases d with
+    | nil => simp [List.isPrefixOf, hpc]
+    | cons x xs =>
+      simp only [List.cons_append, List.isPrefixOf]
+      rw [ih xs (fun e => hc (by simp [e]))]
+
+/-! ### ReST field tokens -/
+
+theorem restTokens_eq : Doc.restTokens = [[':','p','a','r','a','m'], [':','t','y','p','e'], [':','r','e','t','u','r','n'], [':','r','t','y','p','e']] := by decide
+theorem allRestTokens_eq : allRestTokens = [[':','p','a','r','a','m'], [':','c','v','a','r'], [':','i','v','a','r'], [':','v','a','r'],
+    [':','t','y','p','e'], [':','r','a','i','s','e','s'], [':','r','e','t','u','r','n'], [':','r','t','y','p','e']] := by decide
+theorem otherTokens_eq : [":raises".toList, ":cvar".toList, ":ivar".toList, ":var".toList]
+    = [[':','r','a','i','s','e','s'], [':','c','v','a','r'], [':','i','v','a','r'], [':','v','a','r']] := by decide
+
+theorem any_false_of {α : Type} (l : List α) (p : α → Bool) (h : ∀ x ∈ l, p x = false) : l.any p = false := by
+  induction l with
+  | nil => rfl
+  | cons a as ih => simp only [List.any_cons, h a (by simp), ih (fun x hx => h x (by simp [hx])), Bool.or_self]
+
+theorem startsWith_colon_false (l t : Str) (h : ':' ∉ l) : startsWith l (':' :: t) = false := by
+  unfold startsWith
+  cases l with
+  | nil => rfl
+  | cons c cs =>
+    have : (':' == c) = false := by
+      cases hb : (':' == c) with
+      | false => rfl
+      | true => exact absurd (by simp [← beq_iff_eq.mp hb]) h
+    simp [List.isPrefixOf, this]
+
+theorem contains_false_of_notin (s : Str) (c : Char) (t : Str) (h : c ∉ s) : contains s (c :: t) = false := by
+  induction s with
+  | nil => rfl
+  | cons x xs ih =>
+    have hx : (c == x) = false := by
+      cases hb : (c == x) with
+      | false => rfl
+      | true => exact absurd (by simp [beq_iff_eq.mp hb]) h
+    simp only [contains, List.isPrefixOf, hx, Bool.false_and, Bool.false_or]
+    exact ih (fun e => h (by simp [e]))
+
+/-- every token is a colon followed by a letter, and contains neither a blank, a full stop, a comma nor a backtick -/
+theorem allTok_shape : ∀ t ∈ allRestTokens, ∃ x r, t = ':' :: x :: r ∧ x ≠ ' ' ∧ ' ' ∉ t ∧ '.' ∉ t ∧ ',' ∉ t := by
+  rw [allRestTokens_eq]
+  intro t ht
+  simp only [List.mem_cons, List.not_mem_nil, or_false] at ht
+  rcases ht with rfl | rfl | rfl | rfl | rfl | rfl | rfl | rfl <;> exact ⟨_, _, rfl, by decide, by decide, by decide, by decide⟩
+
+/-- **no ReST field token occurs in the text** -/
+def NoTok (s : Str) : Prop := ∀ t ∈ allRestTokens, contains s t = false
+
+theorem noTok_of_noColon (s : Str) (h : ':' ∉ s) : NoTok s := by
+  intro t ht
+  obtain ⟨x, r, rfl, _⟩ := allTok_shape t ht
+  exact contains_false_of_notin s ':' _ h
+
+theorem noTok_nil : NoTok [] := noTok_of_noColon [] (by simp)
+
+theorem contains_append_left' (a b p : Str) (h : contains a p = true) : contains (a ++ b) p = true := by
+  induction a with
+  | nil =>
+    have hp : p = [] := by
+      cases p with
+      | nil => rfl
+      | cons _ _ => simp [contains] at h
+    subst hp
+    cases b <;> simp [contains]
+  | cons c cs ih =>
+    simp only [contains, Bool.or_eq_true] at h
+    simp only [List.cons_append, contains, Bool.or_eq_true]
+    rcases h with h | h
+    · left
+      have hpre : p <+: (c :: cs) := List.isPrefixOf_iff_prefix.mp h
+      exact List.isPrefixOf_iff_prefix.mpr (hpre.trans (by simpa using List.prefix_append (c :: cs) b))
+    · right; exact ih h
+
+theorem contains_append_right' (a b p : Str) (h : contains b p = true) : contains (a ++ b) p = true := by
+  induction a with
+  | nil => simpa using h
+  | cons c cs ih => simp only [List.cons_append, contains, ih, Bool.or_true]
+
+theorem contains_of_startsWith (l t : Str) (h : startsWith l t = true) : contains l t = true := by
+  unfold startsWith at h
+  cases l with
+  | nil =>
+    cases t with
+    | nil => rfl
+    | cons _ _ => simp [List.isPrefixOf] at h
+  | cons c cs => simp only [contains, h, Bool.true_or]
+
+theorem contains_of_drop1 (l t : Str) (h : contains (l.drop 1) t = true) : contains l t = true := by
+  cases l with
+  | nil => simpa using h
+  | cons c cs =>
+    simp only [List.drop_succ_cons, List.drop_zero] at h
+    simp only [contains, h, Bool.or_true]
+
+theorem mem_splitOn1_sub (sep : Char) (s acc l : Str) (h : l ∈ splitOn1 sep s acc) :
+    ∃ a b, acc.reverse ++ s = a ++ l ++ b := by
+  induction s generalizing acc with
+  | nil =>
+    simp only [splitOn1, List.mem_singleton] at h
+    subst h
+    exact ⟨[], [], by simp⟩
+  | cons c cs ih =>
+    cases hb : (c == sep) with
+    | true =>
+      simp only [splitOn1, hb, if_true, List.mem_cons] at h
+      rcases h with rfl | h
+      · exact ⟨[], c :: cs, by simp⟩
+      · obtain ⟨a, b, e⟩ := ih [] h
+        simp only [List.reverse_nil, List.nil_append] at e
+        exact ⟨acc.reverse ++ c :: a, b, by rw [e]; simp⟩
+    | false =>
+      simp only [splitOn1, hb, Bool.false_eq_true, if_false] at h
+      obtain ⟨a, b, e⟩ := ih (c :: acc) h
+      exact ⟨a, b, by rw [← e]; simp⟩
+
+/-- the lines of a token-free text are token-free -/
+theorem noTok_lines (s : Str) (sep : Char) (h : NoTok s) : ∀ l ∈ split1 s sep, NoTok l := by
+  intro l hl t ht
+  obtain ⟨a, b, e⟩ := mem_splitOn1_sub sep s [] l hl
+  simp only [List.reverse_nil, List.nil_append] at e
+  cases hc : contains l t with
+  | false => rfl
+  | true =>
+    have := contains_append_left' (a ++ l) b t (contains_append_right' a l t hc)
+    rw [← e, h t ht] at this; cases this
+
+/-- a token cannot straddle into a continuation that starts with a character no token contains -/
+theorem contains_append_notin (d z t : Str) (c : Char) (hc : c ∉ t) (hd : contains d t = false)
+    (hz : contains (c :: z) t = false) : contains (d ++ c :: z) t = false := by
+  induction d with
+  | nil => simpa using hz
+  | cons x xs ih =>
+    simp only [contains, Bool.or_eq_false_iff] at hd
+    have h1 : t.isPrefixOf ((x :: xs) ++ c :: z) = false := by
+      rw [isPrefixOf_append_of_notin t (x :: xs) z c hc]; exact hd.1
+    simp only [List.cons_append] at h1
+    simp only [List.cons_append, contains, h1, Bool.false_or]
+    exact ih hd.2
+
+theorem noTok_append (d z : Str) (c : Char) (hd : NoTok d) (hc : c = ' ' ∨ c = '.' ∨ c = ',') (hz : ':' ∉ c :: z) :
+    NoTok (d ++ c :: z) := by
+  intro t ht
+  obtain ⟨x, r, rfl, _, h1, h2, h3⟩ := allTok_shape t ht
+  apply contains_append_notin d z _ c ?_ (hd _ ht) (contains_false_of_notin _ _ _ hz)
+  rcases hc with rfl | rfl | rfl
+  · exact h1
+  · exact h2
+  · exact h3
+
 end DocRT
